@@ -265,6 +265,27 @@ def check_stored_flush_reset(rep, mod):
                 'while it was being copied and is never true): a FULL_FLUSH that ends in a stored block with the output full leaves the match history in place', key='R-STORED-FLUSH-RESET', sample='next state stored, then tested, then history reset')
 
 
+def check_hashmask_stable(rep, mod, K):
+    """set_hash_mask may shrink the mask for a short segment, and reset_match_history then clears only that part of the table; the mask has to stay what the last reset used until the next reset"""
+    R = rep.rule('R-HASHMASK-STABLE', 'isal_deflate with has_hist == IGZIP_HIST (control-flow graph partially evaluated for that value: a continuation call inside a segment whose history is established): no call of '
+                 'set_hash_mask / set_dist_mask is reachable before the compression body - the masks change only together with a reset of the match history, so buckets outside a shrunken mask, which the last reset '
+                 'did not clear and which may still point before the last full flush, are never looked up', floor=1, unit='continuation entries')
+    f = mod.funcs.get('isal_deflate')
+    if f is None:
+        raise AnalysisBroken('isal_deflate not found')
+    off = c19.field_offsets('struct isal_zstream', ['internal_state.has_hist'])['internal_state.has_hist']
+    ev, succ, reach = partial_cfg(mod, f, 0, off)
+    ints = {i.block for i in f.all_insns() if i.op == 'call' and base_name(i.callee) == 'isal_deflate_int'}
+    setters = [i for i in f.all_insns() if i.op == 'call' and base_name(i.callee) in ('set_hash_mask', 'set_dist_mask')]
+    if not ints or not setters:
+        raise AnalysisBroken('isal_deflate: calls of isal_deflate_int / set_hash_mask not found')
+    R.instance()
+    r = reach(f.order[0], K['IGZIP_HIST'], avoid=ints) | {f.order[0]}
+    bad = [i for i in setters if i.block in r]
+    R.check(not bad, mod.where(f, bad[0]) if bad else mod.where(f, setters[0]), 'isal_deflate calls %s on a continuation call (has_hist == IGZIP_HIST) before compressing: the hash mask grows back over buckets the last '
+            'reset_match_history did not clear' % (base_name(bad[0].callee) if bad else ''), key='R-HASHMASK-STABLE', sample='%d mask setters, none reachable when has_hist == IGZIP_HIST' % len(setters))
+
+
 def check_mask_width(rep, mod):
     """clearing BFINAL in a 64-bit word of header bits with a 32-bit complement mask wipes the upper half of the word"""
     R = rep.rule('L-MASK-WIDTH', 'no 64-bit value anywhere in the library is AND-ed with a constant in [2^31, 2^32): such a constant is a complement mask computed in 32 bits and zero-extended (x &= ~1u on a uint64_t), '
@@ -331,12 +352,13 @@ def main(tier):
                        'one-shot full-flush call leaves the stream unterminated. Necessary conditions that hold or fail for every input at once.')
     rep.trusted = ['clang IR + sroa', 'tools/constinterp.py', 'tools/llir.py dominators / post-dominators']
     mod = llir.library('default')
-    K, drop = mirror.c_values('default', ['igzip_lib.h'], [(n, n) for n in ('NO_FLUSH', 'SYNC_FLUSH', 'FULL_FLUSH', 'IGZIP_NO_HIST')], 'c14')
+    K, drop = mirror.c_values('default', ['igzip_lib.h'], [(n, n) for n in ('NO_FLUSH', 'SYNC_FLUSH', 'FULL_FLUSH', 'IGZIP_NO_HIST', 'IGZIP_HIST')], 'c14b')
     if drop:
         raise AnalysisBroken('constants missing: %s' % drop)
     rep.attempt(check_marker, rep, mod, K)
     rep.attempt(check_full_flush, rep, mod, K)
     rep.attempt(check_stored_flush_reset, rep, mod)
+    rep.attempt(check_hashmask_stable, rep, mod, K)
     rep.attempt(check_mask_width, rep, mod)
     rep.attempt(check_flush_reaches_int, rep, mod, K)
     import c17
